@@ -10,13 +10,13 @@ pub open spec fn digit_char(d: int) -> char
 }
 
 /// value of a decimal digit character, -1 for every other character
-pub open spec fn digit_val(ch: char) -> int {
+pub open spec fn digit_char_val(ch: char) -> int {
     if ch == '0' { 0 } else if ch == '1' { 1 } else if ch == '2' { 2 } else if ch == '3' { 3 } else if ch == '4' { 4 }
     else if ch == '5' { 5 } else if ch == '6' { 6 } else if ch == '7' { 7 } else if ch == '8' { 8 } else if ch == '9' { 9 }
     else { -1 }
 }
 
-pub open spec fn is_digit(ch: char) -> bool { digit_val(ch) >= 0 }
+pub open spec fn is_digit_char(ch: char) -> bool { digit_char_val(ch) >= 0 }
 
 /// decimal notation of n without leading zeros ("0" for 0)
 pub open spec fn digits(n: nat) -> Seq<char>
@@ -51,13 +51,13 @@ pub open spec fn left_pad(s: Seq<char>, w: nat, ch: char) -> Seq<char> {
 }
 
 // ---- reading a string back (own small recogniser of the shape  [-] digit+ [ . digit* ] )
-pub open spec fn all_digits(s: Seq<char>) -> bool { forall|i: int| 0 <= i < s.len() ==> is_digit(#[trigger] s[i]) }
+pub open spec fn all_digit_chars(s: Seq<char>) -> bool { forall|i: int| 0 <= i < s.len() ==> is_digit_char(#[trigger] s[i]) }
 
 /// value of a digit string (most significant digit first); the empty string has value 0
 pub open spec fn dec_value(s: Seq<char>) -> int
     decreases s.len()
 {
-    if s.len() == 0 { 0 } else { 10 * dec_value(s.drop_last()) + digit_val(s.last()) }
+    if s.len() == 0 { 0 } else { 10 * dec_value(s.drop_last()) + digit_char_val(s.last()) }
 }
 
 /// s is  [-] ip [. fp]  with ip a non-empty digit string without superfluous leading zero, fp a digit
@@ -65,22 +65,22 @@ pub open spec fn dec_value(s: Seq<char>) -> int
 pub open spec fn literal_shape(s: Seq<char>, neg: bool, ip: Seq<char>, fp: Seq<char>) -> bool {
     &&& s == (if neg { seq!['-'] } else { Seq::<char>::empty() }) + (ip + (if fp.len() > 0 { seq!['.'] + fp } else { Seq::<char>::empty() }))
     &&& ip.len() >= 1
-    &&& all_digits(ip)
-    &&& all_digits(fp)
+    &&& all_digit_chars(ip)
+    &&& all_digit_chars(fp)
     &&& (ip.len() == 1 || ip[0] != '0')
 }
 
 // ---- lemmas
 pub proof fn lemma_digit_char(d: int)
     requires 0 <= d <= 9
-    ensures digit_val(digit_char(d)) == d, is_digit(digit_char(d)), (digit_char(d) == '0') == (d == 0)
+    ensures digit_char_val(digit_char(d)) == d, is_digit_char(digit_char(d)), (digit_char(d) == '0') == (d == 0)
 {
 }
 
 pub proof fn lemma_digits_props(n: nat)
     ensures
         digits(n).len() >= 1,
-        all_digits(digits(n)),
+        all_digit_chars(digits(n)),
         dec_value(digits(n)) == n,
         digits(n).len() == 1 || digits(n)[0] != '0',
         n < 10 ==> digits(n).len() == 1,
@@ -98,7 +98,7 @@ pub proof fn lemma_digits_props(n: nat)
         let h = digits(n / 10);
         assert(s.drop_last() =~= h);
         assert(s.last() == digit_char((n % 10) as int));
-        assert forall|i: int| 0 <= i < s.len() implies is_digit(#[trigger] s[i]) by {
+        assert forall|i: int| 0 <= i < s.len() implies is_digit_char(#[trigger] s[i]) by {
             if i < h.len() { assert(s[i] == h[i]); }
         }
         assert(s[0] == h[0]);
@@ -109,7 +109,7 @@ pub proof fn lemma_digits_props(n: nat)
             assert(dec_value(h) == n / 10);
             assert(h.drop_last() =~= Seq::<char>::empty());
             assert(dec_value(h.drop_last()) == 0);
-            assert(digit_val(h[0]) == n / 10);
+            assert(digit_char_val(h[0]) == n / 10);
         }
     }
 }
@@ -130,7 +130,7 @@ pub proof fn lemma_digits_len(n: nat, w: nat)
 }
 
 pub proof fn lemma_fixed_props(n: nat, w: nat)
-    ensures fixed(n, w).len() == w, all_digits(fixed(n, w))
+    ensures fixed(n, w).len() == w, all_digit_chars(fixed(n, w))
     decreases w
 {
     if w > 0 {
@@ -138,7 +138,7 @@ pub proof fn lemma_fixed_props(n: nat, w: nat)
         lemma_digit_char((n % 10) as int);
         let s = fixed(n, w);
         let h = fixed(n / 10, (w - 1) as nat);
-        assert forall|i: int| 0 <= i < s.len() implies is_digit(#[trigger] s[i]) by {
+        assert forall|i: int| 0 <= i < s.len() implies is_digit_char(#[trigger] s[i]) by {
             if i < h.len() { assert(s[i] == h[i]); }
         }
     }
